@@ -12,7 +12,7 @@
    Sids selects the catalogue entries of this TLC process (the runs are split over processes).          *)
 EXTENDS WireProps, Json
 
-CONSTANTS Alphabet, MaxLen, Sids, Emit, ValDepth
+CONSTANTS Alphabet, MaxLen, Sids, Emit, ValDepth, Prune
 
 Cat == JsonDeserialize("catalogue.json")          \* <<[name |-> ..., s |-> schema], ...>>
 
@@ -30,7 +30,12 @@ Init == /\ sid \in (IF Sids = {} THEN 1..Len(Cat) ELSE Sids \cap 1..Len(Cat))
 Limit(s) == IF MinWidth(s) > MaxLen THEN 3
             ELSE IF FixedWidth(s) >= 0 /\ FixedWidth(s) + 1 < MaxLen THEN FixedWidth(s) + 1
             ELSE MaxLen
-Next == /\ mode = "bytes" /\ Len(p) < Limit(S)
+\* Prune = TRUE (quick tier): a string that already carries a complete encoding plus one more byte is not
+\* extended further - PrefixOnly, checked in every visited state (so for every one-byte extension of every
+\* accepted string), says the decoders never look past the encoding; the real code sees longer tails in the
+\* value rows (3 trailing bytes) and in the mutated records.
+Done(q) == Prune /\ LET r == Dec(S, q, FALSE) IN r.ok /\ r.n < Len(q)
+Next == /\ mode = "bytes" /\ Len(p) < Limit(S) /\ ~Done(p)
         /\ \E a \in Alphabet : p' = Append(p, a)
         /\ UNCHANGED <<sid, mode>>
 Spec == Init /\ [][Next]_vars
